@@ -76,6 +76,16 @@ CLAIMED["C12"] = ("Proof over a ghost random stream (the reader has delivered rn
  "Trusted: io.ReadFull, randutil.MaybeReadByte, bigmod Nat/Modulus contracts, sm2ec ScalarBaseMult, ecdh isLess, ConstantTimeAllZero.",
  "DESIGN.md §4 C12")
 
+CLAIMED["C17"] = ("Partial proof of the reseed discipline, for every state and every argument: NeedReseed is true whenever the counter has passed the interval (and exactly then outside GM mode); "
+ "Generate of the HMAC, Hash and CTR generators returns the reseed-required error whenever the gate is closed on entry - before any other check - and every failing Generate leaves the generator "
+ "object, its V/key bytes and the output buffer exactly as they were (frame against the entry state); a successful Generate advances the counter by exactly one and is only possible with the counter "
+ "within the interval; successful HMAC/CTR Reseed sets the counter to one and a failing one changes nothing; no index, slice or block-cipher precondition panic in the generate loops "
+ "(hash sizes 20/32/48/64, block sizes 8/16); DrbgPrng.Read returns exactly len(data) on success and 0 with the error otherwise, getEntropy reports short reads (ghost position of the source). "
+ "Not decided: that the generated bytes equal SP 800-90A / GM/T 0105 (Hash_df, Block_Cipher_df, HMAC update are assumed frames only), the GM time-based gate (time.Since is arbitrary here), "
+ "termination of Read, HashDrbg.Reseed and the constructors.",
+ "Trusted: hash.Hash/hmac/cipher.Block interface contracts, the add*/update/derive helpers (frames only), DRBG interface contracts used by the wrapper, io.Reader.Read.",
+ "DESIGN.md §4 C17")
+
 NOT_APPLICABLE = {
 }
 
